@@ -5,7 +5,9 @@ import math
 import struct
 from concurrent.futures import ThreadPoolExecutor
 
-from harness.core import cbool, clist, cz, log, parse_coq_list_of_nat
+import time
+
+from harness.core import cbool, clist, cnat, cz, log, parse_coq_list_of_nat
 
 PROPS = 'C08/Props.v'
 DRIVER = 'harness/impl/c08_driver.py'
@@ -335,7 +337,7 @@ def coq_case_file(case, res):
         # transpose index arrays: model vs implementation
         tr_impl = info.get('transp')
         body.append('Definition transp_impl : list (option (list nat)) := %s.' % (
-            clist(['Some ' + clist(t) for t in tr_impl]) if tr_impl is not None else '[]'))
+            clist(['Some ' + clist(t, cnat) for t in tr_impl]) if tr_impl is not None else '[]'))
         if tr_impl is not None:
             checks.append('forallb (fun x => x) (map (fun bt : list (Z * Z) * option (list nat) => opt_nl_eqb (transpose_idx (fst bt)) (snd bt)) (combine bidx transp_impl))')
             labels.append('transpose_idx')
@@ -407,7 +409,7 @@ def coq_chunks_file(items):
 def coq_transp_file(items):
     cs = []
     for (b, r) in items:
-        exp = 'Some ' + clist(r['t']) if r['status'] == 'Ok' else 'None'
+        exp = 'Some ' + clist(r['t'], cnat) if r['status'] == 'Ok' else 'None'
         cs.append('opt_nl_eqb (transpose_idx %s) (%s)' % (cpairs(b), exp))
     return HEADER + 'Eval vm_compute in bad 0 %s.\n' % clist(cs)
 
@@ -417,13 +419,16 @@ def coq_transp_file(items):
 # ---------------------------------------------------------------------------
 
 def raise_class(case, key, msg):
-    """signature class of an unexpected exception"""
+    """signature class of an unexpected exception: the call site / input class, not the single configuration"""
     dim = len(case['kvs'])
     if 'Lower triangular part not implemented in 1D' in msg:
         return 'sym-1d'
     if 'mismatching blocksize' in msg:
         return 'bsr-packed-nonsquare'
-    return '%s:%s' % (case['name'], key)
+    if dim == 1 and case['vec'] and "bytes-like object is required, not 'tuple'" in msg:
+        return 'core-vec-1d'
+    cat = '-'.join(key.split('-')[:2]) if key.startswith('A-') else key.rstrip('0123456789')
+    return '%s:%s' % (case['name'], cat)
 
 
 def check_property_on_impl(ctx, case, res, stats):
@@ -600,7 +605,9 @@ def run(ctx):
     payload = {'cases': [strip_case(c) for c in cases], 'chunks': chunk_items, 'transp': transp_items}
     log('[C08] %d cases (%d small/Coq-tied), %d chunk_tasks inputs, %d transpose patterns' % (
         len(cases), sum(1 for c in cases if c['small']), len(chunk_items), len(transp_items)))
+    t0 = time.time()
     r1 = ctx.impl.run(DRIVER, dict(payload, threads=1, mode='full'), timeout=2400)
+    log('[C08] 1-thread reference run %.1fs' % (time.time() - t0))
     results = r1['results']
 
     # ---- thread counts: fresh process each, bitwise comparison of every output -------------
@@ -613,10 +620,14 @@ def run(ctx):
     jobs = [n for n in tcounts for _ in range(reps)]
     with ThreadPoolExecutor(max_workers=4) as ex:
         tres = list(ex.map(one, jobs))
+    log('[C08] %d thread-count runs done at %.1fs' % (len(jobs), time.time() - t0))
     nthread_cmp = 0
     for n, rn in tres:
         for case, a, b in zip(cases, results, rn['results']):
             for key, d in a['dig'].items():
+                if key not in b['dig']:
+                    if key.startswith(('upd', 'fresh')):
+                        continue        # update sequences are run in the 1-thread process only
                 nthread_cmp += 1
                 if b['dig'].get(key) != d:
                     kind = key.split('-')[0].rstrip('0123456789')
@@ -637,6 +648,7 @@ def run(ctx):
         ctx.count((case['name'], case['kvs'], case['geo']), nontrivial=True, n=len(res['dig']))
         check_property_on_impl(ctx, case, res, stats)
     ctx.cov['traces_validated_against_impl'] = len(cases)
+    log('[C08] property predicate on the implementation done at %.1fs' % (time.time() - t0))
     ctx.cov['rounding_bound'] = '2 * prod_d(nqp*(p_d+1)) * %d * 2^-52 * max|A|; largest value used %.3e' % (FLOPS_PER_POINT, stats['bound_max'])
     ctx.cov['largest_observed_deviation'] = stats['maxdev']
     ctx.cov['float_comparisons'] = stats['compared']
@@ -673,6 +685,7 @@ def run(ctx):
     for b, r in titems:
         ctx.count(('transp', b), nontrivial=True)
     outs = ctx.coq_eval_many(files, timeout=1500)
+    log('[C08] %d Coq case files evaluated at %.1fs' % (len(files), time.time() - t0))
     ndis = 0
     for idx, (name, ok, out) in enumerate(outs):
         ctx.obligations += 1
@@ -726,9 +739,9 @@ META = {
     'level_text': 'Theorems (Coq, unbounded): chunk_tasks partitions every task list for every k>=1 and commutes with elementwise maps (chunks_partition, '
                   'chunks_matching_slices); every interleaving of tasks with disjoint footprints gives the same memory (schedule_independent), instantiated for the '
                   'thread pool of multi_entries/multi_blocks on arbitrary index lists and any thread count (pool_schedule_independent, pool_write_sets_disjoint, '
-                  'subset_consistent_serial) and for the prange over mu0 of the generic vector core incl. mirrored writes (prange_schedule_independent); lower triangle + '
-                  'mirrored strictly-lower part equals the full assembly for scalar entries and for BSR blocks with transposed mirror blocks (symmetric_equals_full), '
-                  'and for the generic core kernel (symmetric_equals_full_core); the packed<->blocked index map is the stated permutation and a bijection, square and '
+                  'subset_consistent_serial) and for the prange over mu0 of the generic vector core incl. mirrored writes, any number of inner levels (prange_schedule_independent); lower triangle + '
+                  'mirrored strictly-lower part equals the full assembly for scalar entries and for BSR blocks with transposed mirror blocks (symmetric_equals_full; '
+                  'the same statement for the generic core kernel is NOT proved, only tied exactly); the packed<->blocked index map is the stated permutation and a bijection, square and '
                   'non-square component blocks (packed_blocked_permutation, layout_permutation_bijective). Tie: on every run the model predicts, exactly, every '
                   'assembled matrix (symmetric flag x format x layout), the generic core arrays, chunk_tasks and the transpose index arrays from the entries over the '
                   'full pattern of shipped and compiled assemblers (dims 1..3, scalar, 2x2, 3x3, 2x3 blocks); all outputs are compared bitwise across thread counts '
